@@ -661,3 +661,23 @@ Theorem C01_tdd_example :
   hget (s_handles (t_s _ ex_stA)) 13 <> hget (s_handles (t_s _ ex_stA)) 14.
 Proof. exact ex_c01. Qed.
 Print Assumptions C01_tdd_example.
+
+(* ------------------------------------------------------------------------------------------------
+   STORECONC: the store-level reason why equal ids mean equal nodes.  In the composed model
+   Mgr/Core.v (unique table of Conc.v on the store of IndexStore.v on the allocator of Alloc.v) the id
+   that `get_or_insert` gives a new node is named by nothing: no table entry, no hash-table edge, no
+   token of any thread, no child edge of a stored node, no edge value of the store (ALLOC's
+   "a slot handed out held no node" + the link invariant + Conc's invariant) *)
+From OxiVerif Require Mgr.IndexStore Mgr.Core Mgr.CoreProofs Mgr.CoreThms.
+
+Theorem C01_core_ids_unambiguous : forall k terms nl c s tid lvl ch s' id rs,
+  CoreProofs.KInv k terms nl c s ->
+  Core.kstep k terms nl c s (Core.KGoi tid lvl ch) = Some (s', Core.KRNew id, rs) ->
+  Conc.cfind (Core.k_cn s) id = None /\ Core.hfind id (Core.k_hd s) = None /\
+  (forall x, In x (Core.k_tok s) -> Table.eref (snd (fst x)) <> Table.RN id) /\
+  (forall j nd e, Conc.cfind (Core.k_cn s) j = Some nd -> In e (Conc.cch nd) -> Table.eref e <> Table.RN id) /\
+  (forall h, RcStore.afind h (IndexStore.i_hs (Core.k_i s)) <> Some (Npos id)) /\
+  (exists pa, rs = [IndexStore.IRAdded (Npos id) pa]) /\
+  Conc.cfind (Core.k_cn s') id = Some (Conc.mkC lvl ch 1%N).
+Proof. exact CoreThms.ids_unambiguous. Qed.
+Print Assumptions C01_core_ids_unambiguous.
